@@ -113,7 +113,9 @@ def run_once(target, nr, nrho, nelem, route, k, candidates=None, exc_cls=None):
     try:
       tab.write(sink)
     except (exc_cls or Boom) as e:
-      exc = e
+      exc = repr(e)      # (only its text is kept: the exception, its traceback and the frames it holds are released ...)
+    import gc
+    gc.collect()         # (... and what the writer's abandoned buffers do when they are collected counts as written)
     out = sink.nonempty()
     size = sum(len(w) for w in out)
     nwrites = len(out)
